@@ -573,4 +573,18 @@ def _validate_and_write(ev, path):
 
 
 if __name__ == "__main__":
-  sys.exit(main())
+  try:
+    rc = main()
+  except SystemExit:
+    raise
+  except BaseException:      # a crash of the checker itself is never a verdict about the library (exit 3, not 1)
+    import traceback
+    traceback.print_exc()
+    print("checker error: uncaught exception in the checker (exit 3)")
+    rc = 3
+  try:
+    if os.environ.get("VERIF_MARK"):
+      open(os.environ["VERIF_MARK"], "w").write("done")
+  except OSError:
+    pass
+  sys.exit(rc)
